@@ -23,6 +23,21 @@ func bigRead(res *Result) bool {
 	return false
 }
 
+var raceSeen int64
+
+// newRaceText returns what the race detector appended to its log since the
+// last call (GORACE log_path=<out>.race => <out>.race.<pid>).
+func newRaceText(out string) string {
+	name := fmt.Sprintf("%s.race.%d", out[:len(out)-len(".out")], os.Getpid())
+	b, err := os.ReadFile(name)
+	if err != nil || int64(len(b)) <= raceSeen {
+		return ""
+	}
+	txt := string(b[raceSeen:])
+	raceSeen = int64(len(b))
+	return txt
+}
+
 func nontrivial(sc *Scenario, res *Result) bool {
 	fired := 0
 	for _, n := range res.Fired {
@@ -172,6 +187,12 @@ func TestWorker(t *testing.T) {
 					l.Trace = append(l.Trace, res.Trace[k].Human())
 				}
 				emit(l)
+			}
+			if spec.Race {
+				if txt := newRaceText(spec.Out); txt != "" {
+					emit(Line{T: "race", I: i, Scenario: sc, Note: txt})
+					w.Flush()
+				}
 			}
 			vs := Check(spec.Prop, sc, res)
 			if len(vs) > 0 {
